@@ -104,6 +104,8 @@ func c01Setup(t *testing.T) *c01Fixture {
 	f.revStore = rs
 	f.statusList = revocation.NewStatusList2021(engine.GetSQLDatabase(), nil, "")
 	c01F = f
+	// the stores die with this test: the next test function of the process builds its own fixture
+	t.Cleanup(func() { c01F = nil })
 	return f
 }
 
